@@ -80,9 +80,16 @@ fn decompose(updated: &[&str], chunks: &[Vec<String>]) -> Option<Vec<Value>> {
         pos += 1;
         let mut inner = vec![];
         loop {
-            let l = *updated.get(pos)?;
+            // the block ends at a line of nothing but backticks, at least as many as opened it (the parser accepts a longer
+            // closing fence, and `update` may keep it as written) -- or, for the last block of a document whose remaining
+            // chunks are empty, at the end of the text (a block the original left unterminated and update kept so)
+            let l = match updated.get(pos) {
+                Some(l) => *l,
+                None if chunks[ci + 1..].iter().all(|c| c.is_empty()) && ci + 2 == chunks.len() => break,
+                None => return None,
+            };
             pos += 1;
-            if l == fence {
+            if l.len() >= fence.len() && l.chars().all(|c| c == '`') {
                 break;
             }
             inner.push(l.to_string());
